@@ -12,6 +12,11 @@ import (
 // functions that it calls statically and that — transitively — contain a call matching interesting. Functions for
 // which stop returns true are events of the rule, not bodies to look into (e.g. arming functions, other mutators).
 func (c *Ctx) pathsInlined(fn *ssa.Function, opts core.PathOpts, interesting func(*core.Call) bool, stop func(*ssa.Function) bool) ([]*core.Path, error) {
+	return c.pathsInlinedWorth(fn, opts, interesting, stop, nil)
+}
+
+// pathsInlinedWorth is pathsInlined with one more reason to look into a callee: alsoWorth(g).
+func (c *Ctx) pathsInlinedWorth(fn *ssa.Function, opts core.PathOpts, interesting func(*core.Call) bool, stop func(*ssa.Function) bool, alsoWorth func(*ssa.Function) bool) ([]*core.Path, error) {
 	paths, err := core.EnumPaths(fn, opts)
 	if err != nil {
 		return nil, err
@@ -22,7 +27,7 @@ func (c *Ctx) pathsInlined(fn *ssa.Function, opts core.PathOpts, interesting fun
 			return v
 		}
 		memo[g] = false
-		v := c.callsTransitively(g, 3, interesting)
+		v := c.callsTransitively(g, 3, interesting) || (alsoWorth != nil && alsoWorth(g))
 		memo[g] = v
 		return v
 	}
